@@ -505,7 +505,12 @@ class Collada(object):
         # the save() methods of the objects look their elements up, and create
         # new ones, in the default namespace: do the work there and move the
         # document back to its own namespace afterwards
+        # elements that already are in the default namespace (foreign content of
+        # this document) must neither be mistaken for the document's own during
+        # the save nor be moved afterwards: park them in a private namespace
+        parked = 'urn:x-pycollada:parked:' + COLLADA_NS
         doctag = self.tag
+        self._retagNamespace(COLLADA_NS, parked)
         self._retagNamespace(namespace, COLLADA_NS)
         self.tag = tag
         try:
@@ -513,6 +518,7 @@ class Collada(object):
         finally:
             self.tag = doctag
             self._retagNamespace(COLLADA_NS, namespace)
+            self._retagNamespace(parked, COLLADA_NS)
 
     def _save(self):
         libraries = [(self.geometries, 'library_geometries'),
